@@ -375,6 +375,16 @@ func c19(r *engine.Report, p *engine.Program) {
 		both := nTests == 1 && len(secretScans(rst)) == 1
 		r.Check("R2-redaction", "admission test and redaction use the same normaliser", aru.Pos(), both, "both sides use strings.HasPrefix(strings.ToLower(name), \"secret_\")", "admission and redaction no longer use the same name test")
 	}
+	// R6 the unredacted values leave the submitter only over its connection
+	if sru := p.Func("(*workceptor.remoteUnit).startRemoteUnit"); sru != nil && len(sru.Params) >= 3 {
+		leaks, nSrc, nSink := secretFlow(p, sru, rp, sru.Params[2])
+		r.Check("R6-secret-sinks", "startRemoteUnit: parameter values of the unredacted record flow only into the submission written to conn", sru.Pos(),
+			len(leaks) == 0 && nSrc > 0 && nSink > 0,
+			fmt.Sprintf("%d unredacted source(s); the values reach %d Write call(s) on the connection parameter through the local command map and json.Marshal, and nothing else (no error text, log line, status field, return value)", nSrc, nSink),
+			fmt.Sprintf("%d source(s), %d permitted sink(s); leaks: %s — secret values end up in an error message / status detail / log", nSrc, nSink, strings.Join(leaks, "; ")))
+	} else {
+		r.Broken("startRemoteUnit not found")
+	}
 	// R4 who ranges over RemoteParams
 	okRange := map[string]bool{"(*workceptor.remoteUnit).startRemoteUnit": true, "(*workceptor.remoteUnit).UnredactedStatus": true, "(*workceptor.remoteUnit).Status": true, "(*workceptor.remoteUnit).SetFromParams": true}
 	var rangers, badRangers []string
